@@ -516,6 +516,90 @@ func c06Decrypt(enc []byte, keyHex string) ([]byte, error) {
 	return w.Bytes(), nil
 }
 
+// c06SplitAt returns the length of the init part (everything before the first styp/moof/sidx/emsg at top level).
+func c06SplitAt(b []byte) int {
+	top, err := boxwalk.WalkAll(b)
+	if err != nil {
+		return 0
+	}
+	for _, bx := range top {
+		switch bx.Type {
+		case "styp", "moof", "sidx", "emsg", "prft":
+			return bx.Start
+		}
+	}
+	return len(b)
+}
+
+// c06EncryptSplit / c06DecryptSplit: the same operations when init segment and media segments are separate byte
+// strings, decoded separately (the media part is decoded without a moov, so its senc boxes are parsed only later), and
+// every fragment goes through EncryptFragment / DecryptFragment on its own.
+func c06EncryptSplit(clear []byte, cs *c06Case) ([]byte, error) {
+	key, _ := hexDecode(cs.Key)
+	iv, _ := hexDecode(cs.IV)
+	n := c06SplitAt(clear)
+	fi, err := mp4.DecodeFile(bytes.NewReader(clear[:n]))
+	if err != nil || fi.Init == nil {
+		return nil, fmt.Errorf("decode clear init: %v", err)
+	}
+	fm, err := mp4.DecodeFile(bytes.NewReader(clear[n:]))
+	if err != nil {
+		return nil, fmt.Errorf("decode clear media: %w", err)
+	}
+	kid, _ := mp4.NewUUIDFromString("11112222333344445555666677778888")
+	ipd, err := mp4.InitProtect(fi.Init, key, iv, cs.Scheme, kid, nil)
+	if err != nil {
+		return nil, fmt.Errorf("InitProtect: %w", err)
+	}
+	var w bytes.Buffer
+	if err := fi.Init.Encode(&w); err != nil {
+		return nil, err
+	}
+	for _, sg := range fm.Segments {
+		for _, fr := range sg.Fragments {
+			if err := mp4.EncryptFragment(fr, key, iv, ipd); err != nil {
+				return nil, fmt.Errorf("EncryptFragment: %w", err)
+			}
+		}
+		if err := sg.Encode(&w); err != nil {
+			return nil, fmt.Errorf("encode segment: %w", err)
+		}
+	}
+	return w.Bytes(), nil
+}
+
+func c06DecryptSplit(enc []byte, keyHex string) ([]byte, error) {
+	key, _ := hexDecode(keyHex)
+	n := c06SplitAt(enc)
+	fi, err := mp4.DecodeFile(bytes.NewReader(enc[:n]))
+	if err != nil || fi.Init == nil {
+		return nil, fmt.Errorf("decode encrypted init: %v", err)
+	}
+	di, err := mp4.DecryptInit(fi.Init)
+	if err != nil {
+		return nil, fmt.Errorf("DecryptInit: %w", err)
+	}
+	var w bytes.Buffer
+	if err := fi.Init.Encode(&w); err != nil {
+		return nil, err
+	}
+	fm, err := mp4.DecodeFile(bytes.NewReader(enc[n:]))
+	if err != nil {
+		return nil, fmt.Errorf("decode encrypted media: %w", err)
+	}
+	for _, sg := range fm.Segments {
+		for _, fr := range sg.Fragments {
+			if err := mp4.DecryptFragment(fr, di, key); err != nil {
+				return nil, fmt.Errorf("DecryptFragment: %w", err)
+			}
+		}
+		if err := sg.Encode(&w); err != nil {
+			return nil, fmt.Errorf("encode segment: %w", err)
+		}
+	}
+	return w.Bytes(), nil
+}
+
 // ---------- oracles
 
 var c06ProtectionBoxes = map[string]bool{"saiz": true, "saio": true, "senc": true, "pssh": true, "sinf": true, "frma": true, "schm": true, "schi": true, "tenc": true}
@@ -1088,7 +1172,7 @@ func c06Run(c *vf.Ctx, prop string, cs *c06Case, tools *c06Tools) {
 	if got, err := c06Samples(clear); err != nil || len(got) != len(f.Samples) {
 		vf.Harness("c06: clear file unreadable by the reference reader: %v", err)
 	}
-	paths := []string{"api"}
+	paths := []string{"api", "split"}
 	if tools != nil {
 		paths = append(paths, "tool")
 	}
@@ -1100,13 +1184,19 @@ func c06Run(c *vf.Ctx, prop string, cs *c06Case, tools *c06Tools) {
 		if path == "tool" {
 			pfx = "tool: "
 		}
+		if path == "split" {
+			pfx = "init and media decoded separately: "
+		}
 		cc := &c06Ctx{c, pfx}
 		guard(c, pfx+"crypto", "encrypting and decrypting do not panic", func() interface{} { return det("") }, func() {
 			var enc []byte
 			var err error
-			if path == "tool" {
+			switch path {
+			case "tool":
 				enc, err = tools.encrypt(clear, cs)
-			} else {
+			case "split":
+				enc, err = c06EncryptSplit(clear, cs)
+			default:
 				enc, err = c06Encrypt(clear, cs)
 			}
 			if err != nil {
@@ -1119,9 +1209,12 @@ func c06Run(c *vf.Ctx, prop string, cs *c06Case, tools *c06Tools) {
 				return
 			}
 			var dec []byte
-			if path == "tool" {
+			switch path {
+			case "tool":
 				dec, err = tools.decrypt(enc, cs.Key)
-			} else {
+			case "split":
+				dec, err = c06DecryptSplit(enc, cs.Key)
+			default:
 				dec, err = c06Decrypt(enc, cs.Key)
 			}
 			if err != nil {
@@ -1376,7 +1469,7 @@ func runC0607(c *vf.Ctx, prop string) {
 	}
 	c06Setup()
 	cases := c06Cases(thorough)
-	c.Rule = "product enumeration of clear fragmented files: codec {AVC, HEVC, AAC} x scheme {cenc, cbcs} x IV {0, ..ff, ff..ff (wrap), 8-byte, 8-byte ff..ff} x 2 keys x sample layouts (1 NAL unit: every size 1..420 (thorough: 1..1200 and around 4096 and 65536) x {non-VCL, 3 slice variants with real slice headers}; every single C15 syntax deviation (AVC and HEVC: parameter sets and slice header built with it) and every pair of slice-level deviations x 3 (thorough: 7) sizes, and for cbcs every single deviation x the first slice-data byte with 0..5 leading zero bits; 2 and 3 NAL units: all class patterns x size subsets; 39..43 protected NAL units in one sample; clear runs around 65535 and 131070 bytes) x {1 sample, chained 2+1 samples in 2 fragments} x audio frame sizes (and empty audio samples at every position of a three-sample fragment) x every subset of <= 3 (thorough: 4) of 12 extra-box choices (uuid tfxd/tfrf/vendor, unknown, free, sgpd+sbgp of grouping type roll, sbgp rap; in moof and traf; before/after trun and mfhd). Each file is encrypted through DecodeFile/InitProtect/EncryptFragment/Encode and (C06) decrypted through DecodeFile/DecryptInit/DecryptSegment/Encode. C07 reads the encrypted bytes with ref/boxwalk: sub-sample partition, clear/protected placement against the generator's NAL map and slice header sizes, saiz/saio against the senc entries, IV progression, and ref/cencref (own CTR and CBC-pattern modes over the AES block primitive, NIST-vector self-test) on every sample; everything else in the fragment compared box by box with the clear input. C06 reads the decrypted bytes with ref/fragref: every sample byte-for-byte, size/duration/flags/cto/decode time, sample entry type, and the list of all non-protection boxes (trun data_offset checked through the sample bytes)."
+	c.Rule = "product enumeration of clear fragmented files: codec {AVC, HEVC, AAC} x scheme {cenc, cbcs} x IV {0, ..ff, ff..ff (wrap), 8-byte, 8-byte ff..ff} x 2 keys x sample layouts (1 NAL unit: every size 1..420 (thorough: 1..1200 and around 4096 and 65536) x {non-VCL, 3 slice variants with real slice headers}; every single C15 syntax deviation (AVC and HEVC: parameter sets and slice header built with it) and every pair of slice-level deviations x 3 (thorough: 7) sizes, and for cbcs every single deviation x the first slice-data byte with 0..5 leading zero bits; 2 and 3 NAL units: all class patterns x size subsets; 39..43 protected NAL units in one sample; clear runs around 65535 and 131070 bytes) x {1 sample, chained 2+1 samples in 2 fragments} x audio frame sizes (and empty audio samples at every position of a three-sample fragment) x every subset of <= 3 (thorough: 4) of 12 extra-box choices (uuid tfxd/tfrf/vendor, unknown, free, sgpd+sbgp of grouping type roll, sbgp rap; in moof and traf; before/after trun and mfhd). Each file is encrypted through DecodeFile/InitProtect/EncryptFragment/Encode and (C06) decrypted through DecodeFile/DecryptInit/DecryptSegment/Encode, and a second time with init and media segments as separate byte strings decoded separately (senc parsed late) and DecryptFragment per fragment. C07 reads the encrypted bytes with ref/boxwalk: sub-sample partition, clear/protected placement against the generator's NAL map and slice header sizes, saiz/saio against the senc entries, IV progression, and ref/cencref (own CTR and CBC-pattern modes over the AES block primitive, NIST-vector self-test) on every sample; everything else in the fragment compared box by box with the clear input. C06 reads the decrypted bytes with ref/fragref: every sample byte-for-byte, size/duration/flags/cto/decode time, sample entry type, and the list of all non-protection boxes (trun data_offset checked through the sample bytes)."
 	c.Bound = fmt.Sprintf("%d cases (%s)", len(cases), c.Tier)
 	// the command-line tools' own encryptFile / decryptFile (overlay drivers): every 4th case (quick), all (thorough)
 	nw := 16
